@@ -704,7 +704,7 @@ def float_matrix(E, eps):
         for b in range(n):
             d = 0.0
             for x, y in zip(E[a], E[b]):
-                with np.errstate(invalid="ignore"):
+                with np.errstate(invalid="ignore", over="ignore"):
                     t = abs(float(np.float64(x) - np.float64(y)))
                 if t > d:
                     d = t
@@ -715,11 +715,16 @@ def float_matrix(E, eps):
 def double_embedding(rng, n, dim):
     """doubles whose differences are NOT all representable (exponents far apart), a few infinities
     and NaNs; returns the array and a list of thresholds at / next to its distances"""
-    kind = rng.choice(["gap", "gap", "tenths", "f32gap", "subnormal"])
+    kind = rng.choice(["gap", "gap", "tenths", "f32gap", "subnormal", "overflow"])
     E = np.zeros((n, dim))
     for a in range(n):
         for l in range(dim):
-            if kind == "subnormal":
+            if kind == "overflow":
+                # round 5: doubles whose DIFFERENCE overflows to inf (not reachable through the
+                # class, whose embedding is float32-born; the kernels accept any doubles).  The
+                # model has no overflow: these cases go to the oracle only.
+                E[a, l] = rng.choice([1.7e308, -1.7e308, 1e308, -1e308, 0.0, 1.0, 8.9e307, -8.99e307])
+            elif kind == "subnormal":
                 # round 5: samples / differences in and around the subnormal range (gradual
                 # underflow: the last place is clamped at 2^-1074; a difference of doubles there is
                 # exact -- theorem rnd64_eq_rn53_on_differences)
@@ -755,6 +760,8 @@ def double_embedding(rng, n, dim):
                 x, y = rng.choice(col), rng.choice(col)
                 d = abs(x - y)          # the rounded distance: a threshold exactly there is the
                 near += [d, d, float(np.nextafter(d, np.inf))]     # case rounding can decide
+    if kind == "overflow":
+        cands = [np.inf, np.inf, 1.7976931348623157e308, 1e308, 1.0]
     if kind == "subnormal":
         cands = [5e-324, 1e-323, 2.0 ** -1022, 2.0 ** -1060, 2.0 ** -1000, 0.0, -5e-324, np.inf, 1.0]
     if near and rng.random() < 0.5:
@@ -841,7 +848,12 @@ def doubles(ctx, K, RecurrencePlot, rng, nprng, quick):
         E, kind, special, eps = double_embedding(rng, n, dim)
         M = np.isnan(E).sum(axis=1) != 0
         Rex = float_matrix(E.tolist(), eps)
-        if np.isfinite(E).all() and np.isfinite(eps):
+        overflows = False
+        if kind == "overflow":
+            fin = [[float(x) for x in E[:, l] if np.isfinite(x)] for l in range(dim)]
+            overflows = any(c and float(max(c)) - float(min(c)) == np.inf for c in fin)
+            ctx.count("doubles:a-finite-difference-overflows" if overflows else "doubles:overflow-kind-without-overflow")
+        if np.isfinite(E).all() and np.isfinite(eps) and not overflows:
             # how often does binary64 rounding of |a - b| decide a cell differently from exact
             # arithmetic (theorem round_subset: only ever by dropping a recurrence)
             Rq = sup_matrix(E.tolist(), eps)
@@ -853,7 +865,7 @@ def doubles(ctx, K, RecurrencePlot, rng, nprng, quick):
                              {"E": enc_xmat(E.tolist()), "eps": repr(eps)})
         # round 5: the matrix mode's distance kernel against its two outer loops AS WRITTEN
         # (generated `supremum_rp_loops`, proved equal to the closed form of the model)
-        if n <= 11:
+        if n <= 11 and not overflows:
             try:
                 Dm = np.array(K._supremum_distance_matrix_rp(n, dim, np.ascontiguousarray(E)))
                 lreqs.append(f"xdistloops b64 {n} {dim} {enc_xmat(E.tolist())}")
@@ -883,8 +895,9 @@ def doubles(ctx, K, RecurrencePlot, rng, nprng, quick):
             req = f"{name} b64 {n} {dim} {enc_xmat(E.tolist())} {enc_x(eps)}"
             if mv:
                 req += " " + enc_vec(M)
-            reqs.append(req)
-            impl.append(got)
+            if not overflows:
+                reqs.append(req)
+                impl.append(got)
             ctx.count(f"kernel:{name}")
             ctx.count(f"doubles:data={kind}")
             ctx.count(f"doubles:special={special}")
